@@ -291,8 +291,13 @@ def suite_text(plan, key, order=None):
             lines += ['exit-code >= @[CASEINT]@', 'stdout num-lines >= @[CASEINT2]@']
         if ph != 'setup':
             # a value computed by a transformer from a per-case symbol reaches the child as its stdin
+            ref = 'CASELINE'
+            if ph in ('assert', 'cleanup'):
+                # ... through a symbol that the suite itself defines (one definition for all cases) in terms of the per-case one
+                ref = 'SUITELINES_%s' % ph.upper()
+                lines += ['def string %s = @[CASELINE]@' % ref]
             lines += ['run %% suite-%s-%s-lines' % (key, ph),
-                      '  -stdin -contents-of -rel-home lines.txt -transformed-by filter -line-nums @[CASELINE]@']
+                      '  -stdin -contents-of -rel-home lines.txt -transformed-by filter -line-nums @[%s]@' % ref]
         if ph == 'setup':
             lines += ['file suite-file.txt = "from the suite"', 'file -rel-tmp suite-tmp-file.txt = "from the suite"']
         if ph == 'before-assert':
